@@ -209,9 +209,9 @@ class _RealLog:
 
 
 class SpyEdit(_RealLog, urwid.Edit):
-    def __init__(self, sid, glyph, log, caption_len, text_len, pos, wrap):
+    def __init__(self, sid, glyph, log, caption_len, text_len, pos, wrap, caption_blank=False):
         self._spy_setup(sid, glyph, log)
-        super().__init__(glyph * caption_len, glyph * text_len, wrap=wrap)
+        super().__init__(glyph * caption_len + (" " if caption_blank else ""), glyph * text_len, wrap=wrap)
         self.set_edit_pos(pos)
 
     def render(self, size, focus=False):
